@@ -248,5 +248,63 @@ theorem toDag_only_orients (p : PD) (res : List (Var × Var)) (h : p.toDag = som
   exact go_only_orients p.directed (p.undirected.map normPair) _ _ _ _ _ res (fun e he => he)
     (fun e he => Or.inl he) h
 
+/-- no undirected edge is lost: each is still pending (with its first end point not yet removed) or already oriented -/
+theorem go_orients_all (U0 : List (Var × Var)) : ∀ (fuel : Nat) (R : List Var) (dir und acc res : List (Var × Var)),
+    (∀ e ∈ und, e.1 ∈ R) → (∀ e ∈ U0, e ∈ und ∨ e ∈ acc ∨ (e.2, e.1) ∈ acc) →
+    toDag.go fuel R dir und acc = some res → ∀ e ∈ U0, e ∈ res ∨ (e.2, e.1) ∈ res
+  | 0, R, dir, und, acc, res, hR, hI, hgo => by
+    unfold toDag.go at hgo
+    split at hgo
+    · next hemp =>
+      cases hgo
+      have hRn : R = [] := by simpa using hemp
+      intro e he
+      rcases hI e he with h | h
+      · have := hR e h; rw [hRn] at this; cases this
+      · exact h
+    · cases hgo
+  | f+1, R, dir, und, acc, res, hR, hI, hgo => by
+    unfold toDag.go at hgo
+    split at hgo
+    · next hemp =>
+      cases hgo
+      have hRn : R = [] := by simpa using hemp
+      intro e he
+      rcases hI e he with h | h
+      · have := hR e h; rw [hRn] at this; cases this
+      · exact h
+    · simp only at hgo
+      split at hgo
+      · cases hgo
+      · next x _ =>
+        refine go_orients_all U0 f _ _ _ _ res ?_ ?_ hgo
+        · intro e he
+          obtain ⟨he1, he2⟩ := List.mem_filter.mp he
+          have hne : e.1 ≠ x ∧ e.2 ≠ x := by simpa using he2
+          exact List.mem_filter.mpr ⟨hR e he1, by simpa using hne.1⟩
+        · intro e he
+          rcases hI e he with h | h | h
+          · obtain ⟨e1, e2⟩ := e
+            by_cases h1 : e1 = x
+            · right; right
+              refine List.mem_append.mpr (Or.inr (List.mem_map.mpr ⟨(e1, e2), List.mem_filter.mpr ⟨h, by simp [h1]⟩, ?_⟩))
+              simp [h1]
+            · by_cases h2 : e2 = x
+              · right; left
+                refine List.mem_append.mpr (Or.inr (List.mem_map.mpr ⟨(e1, e2), List.mem_filter.mpr ⟨h, by simp [h2]⟩, ?_⟩))
+                simp [h1, h2]
+              · left
+                exact List.mem_filter.mpr ⟨h, by simp [h1, h2]⟩
+          · exact Or.inr (Or.inl (List.mem_append.mpr (Or.inl h)))
+          · exact Or.inr (Or.inr (List.mem_append.mpr (Or.inl h)))
+
+/-- **`PDAG.to_dag` loses no adjacency**: every undirected edge of the PDAG appears in the result in one of its two
+    orientations -/
+theorem toDag_orients_all (p : PD) (res : List (Var × Var))
+    (hund : ∀ e ∈ p.undirected.map normPair, e.1 ∈ p.nodes) (h : p.toDag = some res) :
+    ∀ e ∈ p.undirected.map normPair, e ∈ res ∨ (e.2, e.1) ∈ res := by
+  unfold toDag at h
+  exact go_orients_all (p.undirected.map normPair) _ _ _ _ _ res hund (fun e he => Or.inl he) h
+
 end PD
 end PgmVerif
